@@ -66,6 +66,12 @@ def stateTypesTable (o : Options) : Bool :=
     | none => true
     | some ty => (leafTypes o).any fun x => decide (x = ty)
 
+/-- a null sample makes the position nullable -/
+def nullTable (o : Options) : Bool :=
+  (leafStates o).all fun s => match act o s .null with
+    | .ok s' => s'.2
+    | .error _ => false
+
 /-- a state is above itself -/
 def reflTable (o : Options) : Bool := (leafStates o).all fun s => sle o s s
 
